@@ -7,6 +7,7 @@ import (
 	"go/ast"
 	"go/token"
 	"go/types"
+	"golang.org/x/tools/go/packages"
 	"sort"
 	"strings"
 )
@@ -519,14 +520,8 @@ func c12WaitGroup(p *Prog, r *Report) {
 			lit, _ = g.Call.Fun.(*ast.FuncLit)
 		}
 	}
-	isWG := func(c *ast.CallExpr, name string) bool {
-		sel, ok := c.Fun.(*ast.SelectorExpr)
-		if !ok || sel.Sel.Name != name {
-			return false
-		}
-		fn, ok := info.Uses[sel.Sel].(*types.Func)
-		return ok && fkey(fn) == "(*sync.WaitGroup)."+name
-	}
+	isWG := func(c *ast.CallExpr, name string) bool { return p.isWaitGroupOp(fi.Pkg, c, name) }
+	_ = info
 	adds := f.Match(func(n *GNode) bool {
 		for _, c := range callsIn(n.Ast, false) {
 			if isWG(c, "Add") {
@@ -595,12 +590,11 @@ func c12WaitGroup(p *Prog, r *Report) {
 			return false
 		}
 		for _, c := range callsIn(n.Ast, false) {
-			if sel, ok := c.Fun.(*ast.SelectorExpr); ok && sel.Sel.Name == "Wait" {
-				if fn, ok := cinfo.Uses[sel.Sel].(*types.Func); ok && fkey(fn) == "(*sync.WaitGroup).Wait" {
-					return true
-				}
+			if p.isWaitGroupOp(cf.Pkg, c, "Wait") {
+				return true
 			}
 		}
+		_ = cinfo
 		return false
 	})
 	good := len(waits) > 0
@@ -646,4 +640,30 @@ func c12WriterError(p *Prog, r *Report) {
 		{Name: "stored error consulted", Keys: []string{"(*" + pkgAsync + ".readWriter).checkErr"}},
 		{Name: "bytes buffered", Keys: []string{"(*bytes.Buffer).Write"}},
 	})
+}
+
+// isWaitGroupOp: c is (*sync.WaitGroup).<name>, directly (an embedded or named wait group) or through a method of
+// the module that does nothing but forward to it (func (rw *readWriter) Done() { rw.producers.Done() }).
+func (p *Prog) isWaitGroupOp(pkg *packages.Package, c *ast.CallExpr, name string) bool {
+	fn, ok := typeutilCallee(pkg.TypesInfo, c)
+	if !ok {
+		return false
+	}
+	if fkey(fn) == "(*sync.WaitGroup)."+name {
+		return true
+	}
+	callee := p.staticCallee(pkg, c)
+	if callee == nil || callee.Decl.Body == nil || len(callee.Decl.Body.List) != 1 {
+		return false
+	}
+	es, ok := callee.Decl.Body.List[0].(*ast.ExprStmt)
+	if !ok {
+		return false
+	}
+	inner, ok := es.X.(*ast.CallExpr)
+	if !ok {
+		return false
+	}
+	ifn, ok := typeutilCallee(callee.Pkg.TypesInfo, inner)
+	return ok && fkey(ifn) == "(*sync.WaitGroup)."+name
 }
